@@ -331,7 +331,7 @@ func runC16(tier string) int {
 	// transparency over the program families of C01 / C03 / C04 (every control-flow shape up to the engine bounds, the
 	// dead-label, sequence and scaled programs): -lm output minus its marker lines == -lm=false output, each marker
 	// names the path and a line inside the file, no markers without a path; optimize on and off
-	plans, swN := enginePlans(tier)
+	plans, swN := liftPlans(tier)
 	forEachEngineProgram(r, plans, swN, func(w int, p engineProgram) {
 		src := model.Print([]*model.Script{p.Script})
 		nLines := strings.Count(src, "\n")
